@@ -3,6 +3,7 @@ package c34
 import (
 	"bytes"
 	"context"
+	"encoding/binary"
 	"encoding/json"
 	"fmt"
 	"io"
@@ -13,6 +14,8 @@ import (
 	"github.com/go-kit/log"
 	"github.com/oklog/ulid/v2"
 	"github.com/prometheus/client_golang/prometheus"
+	"github.com/prometheus/prometheus/model/labels"
+	"github.com/prometheus/prometheus/model/relabel"
 	"github.com/thanos-io/objstore"
 
 	"github.com/thanos-io/thanos/pkg/block"
@@ -49,17 +52,23 @@ func modelJobOut(job int) string {
 func isSource(b string) bool { return strings.HasPrefix(b, "s") }
 
 func initialState(p Params) MState {
-	st := MState{Files: map[string]string{}, Mark: map[string]int{}, Job: 1, Phase: "data", View: []string{}, Pending: []string{}}
+	st := MState{Files: map[string]string{}, Mark: map[string]int{}, Job: 1, Phase: "data", GW: make([]GState, p.gateways())}
+	for g := range st.GW {
+		st.GW[g] = GState{View: []string{}, Pending: []string{}}
+	}
 	for _, b := range modelBlocks(p.NJobs) {
 		st.Mark[b] = -1
 		if isSource(b) {
 			st.Files[b] = "complete"
-			st.View = append(st.View, b)
+			g := p.owner(b) - 1
+			st.GW[g].View = append(st.GW[g].View, b)
 		} else {
 			st.Files[b] = "none"
 		}
 	}
-	sort.Strings(st.View)
+	for g := range st.GW {
+		sort.Strings(st.GW[g].View)
+	}
 	return st
 }
 
@@ -91,27 +100,80 @@ type world struct {
 	ids   map[string]ulid.ULID
 	names map[ulid.ULID]string
 
-	gateway   *block.MetaFetcher
+	gateways  []*block.MetaFetcher // gateway g = gateways[g-1]
 	compactor *block.MetaFetcher
 	cleaner   *compact.BlocksCleaner
 	markCnt   prometheus.Counter
 
-	view, pending []string
-	syncing       bool
+	view, pending [][]string
+	syncing       []bool
 }
 
-func newULID(name string) ulid.ULID {
-	var ent [10]byte
-	copy(ent[:], "c34-"+name+"------")
-	id, err := ulid.New(ulid.Now(), bytes.NewReader(ent[:]))
-	if err != nil {
-		panic(err)
-	}
-	return id
+// Sharding of a gateway set as documented in docs/sharding.md: hashmod on the special label __block_id,
+// every gateway keeps one residue.
+const shardHashmodYAML = `
+- action: hashmod
+  source_labels: ["__block_id"]
+  target_label: shard
+  modulus: %d
+`
+const shardKeepYAML = `- action: keep
+  source_labels: ["shard"]
+  regex: "%d"
+`
+
+// shardRelabel is the --selector.relabel-config of gateway g (1-based) of a set of n gateways.
+func shardRelabel(g, n int) ([]*relabel.Config, error) {
+	return block.ParseRelabelConfig([]byte(fmt.Sprintf(shardHashmodYAML, n)+fmt.Sprintf(shardKeepYAML, g-1)), block.SelectorSupportedRelabelActions)
 }
+
+// shardOf tells which gateway of a set of n a block id hashes to (the same relabel step the gateways run).
+func shardOf(id ulid.ULID, n int) (int, error) {
+	cfg, err := block.ParseRelabelConfig([]byte(fmt.Sprintf(shardHashmodYAML, n)), block.SelectorSupportedRelabelActions)
+	if err != nil {
+		return 0, err
+	}
+	lset, keep := relabel.Process(labels.FromStrings(block.BlockIDLabel, id.String()), cfg...)
+	if !keep {
+		return 0, fmt.Errorf("hashmod step dropped the label set")
+	}
+	var k int
+	if _, err := fmt.Sscanf(lset.Get("shard"), "%d", &k); err != nil || k < 0 || k >= n {
+		return 0, fmt.Errorf("hashmod step produced shard=%q", lset.Get("shard"))
+	}
+	return k + 1, nil
+}
+
+// newULID makes the id of model block `name` with timestamp ts; in a sharded gateway set the entropy is
+// searched until the id hashes to the gateway the model assigns the block to.
+func newULID(p Params, name string, ts time.Time) (ulid.ULID, error) {
+	for k := uint32(0); k < 4096; k++ {
+		var ent [10]byte
+		copy(ent[:6], "c34"+name)
+		binary.BigEndian.PutUint32(ent[6:], k)
+		id, err := ulid.New(ulid.Timestamp(ts), bytes.NewReader(ent[:]))
+		if err != nil {
+			return id, err
+		}
+		if p.gateways() == 1 {
+			return id, nil
+		}
+		g, err := shardOf(id, p.gateways())
+		if err != nil {
+			return id, err
+		}
+		if g == p.owner(name) {
+			return id, nil
+		}
+	}
+	return ulid.ULID{}, fmt.Errorf("no id for block %s hashes to gateway %d", name, p.owner(name))
+}
+
+// sourceAge: the level-1 blocks exist for a long time when the model starts (older than any consistency delay).
+const sourceAge = 1000 * time.Hour
 
 // storeFilters builds the gateway's filter chain in the order written in cmd/thanos/store.go.
-func storeFilters(w Wiring, logger log.Logger, bkt objstore.InstrumentedBucketReader, ignore *block.IgnoreDeletionMarkFilter, conc int) ([]block.MetadataFilter, error) {
+func storeFilters(w Wiring, logger log.Logger, bkt objstore.InstrumentedBucketReader, ignore *block.IgnoreDeletionMarkFilter, conc int, relabelConfig []*relabel.Config, consistency time.Duration) ([]block.MetadataFilter, error) {
 	var out []block.MetadataFilter
 	for _, item := range w.StoreChain {
 		switch {
@@ -131,9 +193,9 @@ func storeFilters(w Wiring, logger log.Logger, bkt objstore.InstrumentedBucketRe
 			}
 			out = append(out, block.NewTimePartitionMetaFilter(lo, hi))
 		case strings.HasPrefix(item, "block.NewLabelShardedMetaFilter("):
-			out = append(out, block.NewLabelShardedMetaFilter(nil))
+			out = append(out, block.NewLabelShardedMetaFilter(relabelConfig))
 		case strings.HasPrefix(item, "block.NewConsistencyDelayMetaFilter("):
-			out = append(out, block.NewConsistencyDelayMetaFilter(logger, w.StoreConsistency, nil))
+			out = append(out, block.NewConsistencyDelayMetaFilter(logger, consistency, nil))
 		case item == "ignoreDeletionMarkFilter":
 			out = append(out, ignore)
 		case strings.HasPrefix(item, "block.NewDeduplicateFilter("):
@@ -154,15 +216,27 @@ func newWorld(p Params, w Wiring) (*world, error) {
 	wd.fault = &faultBucket{Bucket: wd.mem}
 	ins := objstore.WithNoopInstr(wd.mem)
 
-	// store gateway (cmd/thanos/store.go)
-	gwIgnore := block.NewIgnoreDeletionMarkFilter(wd.logger, ins, time.Duration(p.IgnoreMarksDelayS)*time.Second, fetchConc)
-	filters, err := storeFilters(w, wd.logger, ins, gwIgnore, fetchConc)
-	if err != nil {
-		return nil, err
-	}
-	wd.gateway, err = block.NewMetaFetcher(wd.logger, fetchConc, ins, block.NewConcurrentLister(wd.logger, ins), "", nil, filters)
-	if err != nil {
-		return nil, err
+	// store gateways (cmd/thanos/store.go), each with its own fetcher and filter instances
+	ng := p.gateways()
+	wd.view, wd.pending, wd.syncing = make([][]string, ng), make([][]string, ng), make([]bool, ng)
+	var err error
+	for g := 1; g <= ng; g++ {
+		var relabelConfig []*relabel.Config
+		if ng > 1 {
+			if relabelConfig, err = shardRelabel(g, ng); err != nil {
+				return nil, err
+			}
+		}
+		gwIgnore := block.NewIgnoreDeletionMarkFilter(wd.logger, ins, time.Duration(p.IgnoreMarksDelayS)*time.Second, fetchConc)
+		filters, err := storeFilters(w, wd.logger, ins, gwIgnore, fetchConc, relabelConfig, time.Duration(p.GwConsistencyS)*time.Second)
+		if err != nil {
+			return nil, err
+		}
+		f, err := block.NewMetaFetcher(wd.logger, fetchConc, ins, block.NewConcurrentLister(wd.logger, ins), "", nil, filters)
+		if err != nil {
+			return nil, err
+		}
+		wd.gateways = append(wd.gateways, f)
 	}
 
 	// compactor (cmd/thanos/compact.go): fetcher filters up to the duplicate filter, and the cleaner
@@ -190,12 +264,14 @@ func newWorld(p Params, w Wiring) (*world, error) {
 	cnt := prometheus.NewCounter(prometheus.CounterOpts{Name: "c34_cleaned"})
 	wd.cleaner = compact.NewBlocksCleaner(wd.logger, wd.fault, cIgnore, deleteDelay, cnt, cnt)
 
-	// initial bucket: every source complete; the gateway has synced once
+	// initial bucket: every source complete; every gateway has synced once
 	for _, b := range modelBlocks(p.NJobs) {
 		if !isSource(b) {
 			continue
 		}
-		wd.assignID(b)
+		if err := wd.assignID(b, time.Now().Add(-sourceAge)); err != nil {
+			return nil, err
+		}
 		if err := wd.uploadData(b); err != nil {
 			return nil, err
 		}
@@ -203,17 +279,23 @@ func newWorld(p Params, w Wiring) (*world, error) {
 			return nil, err
 		}
 	}
-	if err := wd.syncBegin(); err != nil {
-		return nil, err
+	for g := range wd.gateways {
+		if err := wd.syncBegin(g); err != nil {
+			return nil, err
+		}
+		wd.syncEnd(g)
 	}
-	wd.syncEnd()
 	return wd, nil
 }
 
-func (wd *world) assignID(b string) {
-	id := newULID(b)
+func (wd *world) assignID(b string, ts time.Time) error {
+	id, err := newULID(wd.p, b, ts)
+	if err != nil {
+		return err
+	}
 	wd.ids[b] = id
 	wd.names[id] = b
+	return nil
 }
 
 func (wd *world) uploadData(b string) error {
@@ -269,7 +351,9 @@ func (wd *world) do(act string, from, to MState) error {
 	switch act {
 	case "UploadData":
 		b := modelJobOut(from.Job)
-		wd.assignID(b)
+		if err := wd.assignID(b, time.Now()); err != nil {
+			return err
+		}
 		return wd.uploadData(b)
 	case "UploadMeta":
 		return wd.uploadMeta(modelJobOut(from.Job))
@@ -303,10 +387,24 @@ func (wd *world) do(act string, from, to MState) error {
 			return nil
 		}
 		return err
-	case "SyncBegin":
-		return wd.syncBegin()
-	case "SyncEnd":
-		wd.syncEnd()
+	case "SyncBegin", "SyncEnd":
+		// the gateway whose sync starts / ends on this edge
+		which := -1
+		for g := range from.GW {
+			if g < len(to.GW) && from.GW[g].Syncing != to.GW[g].Syncing {
+				if which >= 0 {
+					return fmt.Errorf("harness: %s edge changes more than one gateway", act)
+				}
+				which = g
+			}
+		}
+		if which < 0 || which >= len(wd.gateways) {
+			return fmt.Errorf("harness: %s edge changes no gateway", act)
+		}
+		if act == "SyncBegin" {
+			return wd.syncBegin(which)
+		}
+		wd.syncEnd(which)
 		return nil
 	case "Tick":
 		time.Sleep(time.Duration(wd.p.TickS) * time.Second)
@@ -316,28 +414,28 @@ func (wd *world) do(act string, from, to MState) error {
 	return fmt.Errorf("harness: unknown action %q", act)
 }
 
-func (wd *world) syncBegin() error {
-	metas, _, err := wd.gateway.Fetch(wd.ctx)
+func (wd *world) syncBegin(g int) error {
+	metas, _, err := wd.gateways[g].Fetch(wd.ctx)
 	if err != nil {
-		return fmt.Errorf("gateway fetch: %v", err)
+		return fmt.Errorf("gateway %d fetch: %v", g+1, err)
 	}
-	wd.pending = wd.pending[:0]
+	wd.pending[g] = wd.pending[g][:0]
 	for id := range metas {
 		n, ok := wd.names[id]
 		if !ok {
-			return fmt.Errorf("gateway fetch returned unknown block %s", id)
+			return fmt.Errorf("gateway %d fetch returned unknown block %s", g+1, id)
 		}
-		wd.pending = append(wd.pending, n)
+		wd.pending[g] = append(wd.pending[g], n)
 	}
-	sort.Strings(wd.pending)
-	wd.syncing = true
+	sort.Strings(wd.pending[g])
+	wd.syncing[g] = true
 	return nil
 }
 
-func (wd *world) syncEnd() {
-	wd.view = append([]string(nil), wd.pending...)
-	wd.pending = wd.pending[:0]
-	wd.syncing = false
+func (wd *world) syncEnd(g int) {
+	wd.view[g] = append([]string(nil), wd.pending[g]...)
+	wd.pending[g] = wd.pending[g][:0]
+	wd.syncing[g] = false
 }
 
 // observed is the abstraction of the real state onto the model's variables (the compactor's program
@@ -345,9 +443,9 @@ func (wd *world) syncEnd() {
 type observed struct {
 	Files   map[string]string `json:"files"` // none | partial | complete | meta-only
 	Mark    map[string]int    `json:"mark"`
-	View    []string          `json:"view"`
-	Pending []string          `json:"pending"`
-	Syncing bool              `json:"syncing"`
+	View    [][]string        `json:"view"`    // per gateway
+	Pending [][]string        `json:"pending"` // per gateway
+	Syncing []bool            `json:"syncing"` // per gateway
 }
 
 func (o observed) String() string {
@@ -356,7 +454,12 @@ func (o observed) String() string {
 }
 
 func abstractModel(st MState) observed {
-	o := observed{Files: map[string]string{}, Mark: map[string]int{}, View: append([]string{}, st.View...), Pending: append([]string{}, st.Pending...), Syncing: st.Syncing}
+	o := observed{Files: map[string]string{}, Mark: map[string]int{}}
+	for _, g := range st.GW {
+		o.View = append(o.View, append([]string{}, g.View...))
+		o.Pending = append(o.Pending, append([]string{}, g.Pending...))
+		o.Syncing = append(o.Syncing, g.Syncing)
+	}
 	for b, f := range st.Files {
 		if f == "data" || f == "nometa" {
 			f = "partial"
@@ -368,7 +471,12 @@ func abstractModel(st MState) observed {
 }
 
 func (wd *world) observe() (observed, error) {
-	o := observed{Files: map[string]string{}, Mark: map[string]int{}, View: append([]string{}, wd.view...), Pending: append([]string{}, wd.pending...), Syncing: wd.syncing}
+	o := observed{Files: map[string]string{}, Mark: map[string]int{}}
+	for g := range wd.gateways {
+		o.View = append(o.View, append([]string{}, wd.view[g]...))
+		o.Pending = append(o.Pending, append([]string{}, wd.pending[g]...))
+		o.Syncing = append(o.Syncing, wd.syncing[g])
+	}
 	// virtual time must be exactly on a tick boundary: nothing in the real code may have slept
 	if el := time.Since(wd.start); el != time.Duration(wd.ticks*wd.p.TickS)*time.Second {
 		return o, fmt.Errorf("harness: virtual clock drifted: %v elapsed after %d ticks of %ds", el, wd.ticks, wd.p.TickS)
